@@ -10,6 +10,8 @@ import (
 	"fmt"
 	"io/ioutil"
 	stdlog "log"
+	"math"
+	"math/rand"
 	"os"
 	"path/filepath"
 	"sort"
@@ -34,7 +36,7 @@ type history struct {
 	MaxBytes  int64 `json:"maxbytes"`
 	SyncEvery int64 `json:"syncevery"`
 	Ops       []op  `json:"ops"`
-	Crash     bool  `json:"crash"` // enumerate crash points
+	Crash     bool  `json:"crash"`    // enumerate crash points
 	NoLevelB  bool  `json:"nolevelb"` // do not record level-B detail (long histories: it is large)
 }
 
@@ -116,12 +118,14 @@ func (s fsState) write(dir string) {
 func (s fsState) abstract() map[string]interface{} {
 	out := map[string]interface{}{}
 	segs := map[string]interface{}{}
+	// five numbers + the number of bytes behind the canonical text (stale tail)
 	parse := func(b []byte) []int64 {
-		var v [5]int64
+		var v [6]int64
 		n, _ := fmt.Sscanf(string(b), "%d\n%d,%d\n%d,%d\n", &v[0], &v[1], &v[2], &v[3], &v[4])
 		if n != 5 {
 			return nil
 		}
+		v[5] = int64(len(b) - len(fmt.Sprintf("%d\n%d,%d\n%d,%d\n", v[0], v[1], v[2], v[3], v[4])))
 		return v[:]
 	}
 	bad := []string{}
@@ -257,9 +261,32 @@ type recorder struct {
 	gotCh  chan int
 	ackCh  chan struct{}
 	lvlB   bool
+	// second generation (a queue reopened on a crash snapshot, used further, crashed again)
+	gen2    bool
+	lastAbs int // identity of the message just taken (set before gotCh is written)
+	pos     map[int]int
+	parent  *snapshot
+	x       []int
+	xs      int
+	ops2    []op
+	stale   int // snapshots whose metadata file carries a stale tail of >= 2 bytes
+	// probe: a dry run of a second history that only looks at the metadata file after each rename
+	probe bool
 }
 
 func (r *recorder) hook(d *nsqd.DiskQueue, label string) {
+	if r.probe {
+		if label == "m_rename" {
+			if b, err := ioutil.ReadFile(filepath.Join(r.dir, "q.diskqueue.meta.dat")); err == nil {
+				if staleTail(fsState{files: map[string][]byte{"q.diskqueue.meta.dat": b}}) >= 2 {
+					r.mu.Lock()
+					r.stale++
+					r.mu.Unlock()
+				}
+			}
+		}
+		return
+	}
 	takeID := 0
 	if label == "take" {
 		select {
@@ -280,6 +307,9 @@ func (r *recorder) hook(d *nsqd.DiskQueue, label string) {
 	ev := map[string]interface{}{"ev": "hook", "label": label}
 	if label == "take" {
 		ev["id"] = takeID
+		if r.gen2 {
+			ev["abs"] = r.lastAbs
+		}
 	}
 	if label == "w_write" {
 		ev["id"] = r.m.N
@@ -302,6 +332,9 @@ func (r *recorder) hook(d *nsqd.DiskQueue, label string) {
 		rec := map[string]interface{}{"ev": "rec", "label": label}
 		r.events = append(r.events, rec)
 		r.snaps = append(r.snaps, &snapshot{fs: fs, m: r.m, label: label, lens: lens, evIdx: len(r.events) - 1})
+		if r.gen2 && staleTail(fs) >= 2 {
+			r.stale++
+		}
 	}
 	r.mu.Unlock()
 	if label == "take" {
@@ -445,6 +478,186 @@ func record(h *history, dir string, lvlB bool) *recorder {
 	return r
 }
 
+// staleTail: bytes behind the canonical text of the metadata file (-1 = no parsable metadata file)
+func staleTail(fs fsState) int {
+	for n, b := range fs.files {
+		if strings.HasSuffix(n, ".meta.dat") {
+			var v [5]int64
+			if k, _ := fmt.Sscanf(string(b), "%d\n%d,%d\n%d,%d\n", &v[0], &v[1], &v[2], &v[3], &v[4]); k != 5 {
+				return -1
+			}
+			return len(b) - len(fmt.Sprintf("%d\n%d,%d\n%d,%d\n", v[0], v[1], v[2], v[3], v[4]))
+		}
+	}
+	return -1
+}
+
+// tmpLen: length of the metadata temp file left in the snapshot (-1 = none)
+func tmpLen(fs fsState) int {
+	for n, b := range fs.files {
+		if strings.HasSuffix(n, ".meta.dat.tmp") {
+			return len(b)
+		}
+	}
+	return -1
+}
+
+// gen2Ops draws the short second history: put small / put large (rolls the segment, which
+// forces a sync) / take / take-all; the final Close completes a sync in any case.
+func gen2Ops(rng *rand.Rand, h *history, variant int) []op {
+	large := int(h.MaxBytes) + 1 // 4+len > maxBytesPerFile: the segment rolls
+	if large < 4 {
+		large = 4
+	}
+	if large%8 != 4 {
+		large += (12 - large%8) % 8 // whole 8-byte cells, like the unit-scaled histories
+	}
+	if variant > 0 {
+		// templates that move the reader and/or the writer to a fresh segment early: the positions
+		// persisted by the first sync of this incarnation become short
+		switch rng.Intn(5) {
+		case 0:
+			return []op{{Op: "takeall"}, {Op: "put", Len: large}}
+		case 1:
+			return []op{{Op: "put", Len: large}, {Op: "takeall"}}
+		case 2:
+			return []op{{Op: "put", Len: large}, {Op: "put", Len: 4}}
+		case 3:
+			return []op{{Op: "takeall"}, {Op: "put", Len: 4}, {Op: "put", Len: large}}
+		default:
+			return []op{{Op: "put", Len: 4}, {Op: "takeall"}}
+		}
+	}
+	n := 2 + rng.Intn(3)
+	if h.SyncEvery > int64(n) && h.SyncEvery <= 6 && rng.Intn(2) == 0 {
+		n = int(h.SyncEvery) // enough loop iterations for a counted sync
+	}
+	var lens []int
+	for _, o := range h.Ops {
+		if o.Op == "put" && o.Len >= 4 {
+			lens = append(lens, o.Len)
+		}
+	}
+	ops := make([]op, 0, n)
+	for i := 0; i < n; i++ {
+		switch x := rng.Intn(20); {
+		case x < 5:
+			ops = append(ops, op{Op: "put", Len: []int{4, 12}[rng.Intn(2)]})
+		case x < 7 && len(lens) > 0:
+			ops = append(ops, op{Op: "put", Len: lens[rng.Intn(len(lens))]})
+		case x < 11:
+			ops = append(ops, op{Op: "put", Len: large})
+		case x < 15:
+			ops = append(ops, op{Op: "take"})
+		default:
+			ops = append(ops, op{Op: "takeall"})
+		}
+	}
+	return ops
+}
+
+var gen2TakeHangs int
+
+// record2 runs a short second history on a queue reopened on crash snapshot s (generation 2),
+// recording and snapshotting at every hook like record.  x is what the recovery of the same
+// snapshot delivered on another copy: the logical content of this incarnation is L = x ++ new
+// puts, and the ids recorded for put / take / rec events are positions in L (0 = not in L).
+func record2(h *history, dir string, s *snapshot, x []int, xs int, ops []op, probe bool) *recorder {
+	os.RemoveAll(dir)
+	s.fs.write(dir)
+	lens := make(map[int]int, len(s.lens)+len(ops))
+	nextAbs := 1
+	for k, v := range s.lens {
+		lens[k] = v
+		if k >= nextAbs {
+			nextAbs = k + 1
+		}
+	}
+	r := &recorder{dir: dir, lens: lens, crash: true, gotCh: make(chan int, 1), ackCh: make(chan struct{}, 1),
+		gen2: true, pos: map[int]int{}, parent: s, x: x, xs: xs, ops2: ops, probe: probe}
+	for i, id := range x {
+		r.pos[id] = i + 1
+	}
+	r.m = marks{N: len(x), C: 0, WS: xs, CS: 0}
+	setRec(r)
+	defer setRec(nil)
+	r.emit(map[string]interface{}{"ev": "open"})
+	q := nsqd.NewDiskQueue("q", dir, h.MaxBytes, h.SyncEvery, time.Hour)
+	closeq := func() {
+		done := make(chan error, 1)
+		go func() { done <- q.Close() }()
+		select {
+		case <-done:
+			r.emit(map[string]interface{}{"ev": "closed"})
+		case <-time.After(20 * time.Second):
+			r.emit(map[string]interface{}{"ev": "hang", "in": "close"})
+		}
+	}
+	nput, ntake := 0, 0
+	take := func() bool {
+		select {
+		case msg := <-q.ReadChan():
+			ntake++
+			r.mu.Lock()
+			abs := identify(msg, r.lens)
+			p := r.pos[abs]
+			r.lastAbs = abs
+			r.mu.Unlock()
+			if r.probe {
+				return true
+			}
+			r.gotCh <- p
+			select {
+			case <-r.ackCh:
+			case <-time.After(20 * time.Second):
+				r.emit(map[string]interface{}{"ev": "hang", "in": "take-ack"})
+				return false
+			}
+			return true
+		case <-time.After(20 * time.Second):
+			// the recovery on the other copy delivered a message that this incarnation does not
+			gen2TakeHangs++
+			r.emit(map[string]interface{}{"ev": "hang", "in": "take"})
+			return false
+		}
+	}
+	for _, o := range ops {
+		switch o.Op {
+		case "put":
+			nput++
+			abs := nextAbs
+			nextAbs++
+			r.mu.Lock()
+			r.lens[abs] = o.Len
+			r.pos[abs] = len(x) + nput
+			r.mu.Unlock()
+			perr := make(chan error, 1)
+			go func(id, n int) { perr <- q.Put(payload(id, n)) }(abs, o.Len)
+			select {
+			case e := <-perr:
+				if e != nil {
+					r.emit(map[string]interface{}{"ev": "puterr", "err": e.Error()})
+				}
+			case <-time.After(20 * time.Second):
+				r.emit(map[string]interface{}{"ev": "hang", "in": "put"})
+				return r
+			}
+		case "take":
+			if len(x)+nput-ntake > 0 && !take() {
+				return r
+			}
+		case "takeall":
+			for len(x)+nput-ntake > 0 {
+				if !take() {
+					return r
+				}
+			}
+		}
+	}
+	closeq()
+	return r
+}
+
 func loadHistories(t *testing.T, path string) []*history {
 	lines, err := hx.ReadLines(path)
 	if err != nil {
@@ -483,44 +696,12 @@ func TestDQ(t *testing.T) {
 	nworkers := hx.EnvInt("VERIF_DQ_WORKERS", 16)
 	nrec, nuniq, nhung := 0, 0, 0
 	const chunk = 64
-	for base := 0; base < len(hs); base += chunk {
-		end := base + chunk
-		if end > len(hs) {
-			end = len(hs)
-		}
-		recs := make([]*recorder, end-base)
-		for i := base; i < end; i++ {
-			if nhung >= 5 {
-				// the queue hangs: every further history would cost its 20 s timeouts; what is
-				// recorded so far already shows it
-				recs[i-base] = &recorder{events: []map[string]interface{}{{"ev": "skipped"}}}
-				continue
-			}
-			recs[i-base] = record(hs[i], filepath.Join(work, "rec"), lvlB && !hs[i].NoLevelB)
-			for _, ev := range recs[i-base].events {
-				if ev["ev"] == "hang" {
-					nhung++
-					break
-				}
-			}
-		}
-		// recover every distinct (filesystem, marks) snapshot of the chunk in parallel
-		type job struct {
-			h *history
-			s *snapshot
-			k string
-		}
-		results := map[string]*recResult{}
-		var jobs []job
-		for i, r := range recs {
-			for _, s := range r.snaps {
-				k := fmt.Sprintf("%d/%d/%v/%s", hs[base+i].MaxBytes, hs[base+i].SyncEvery, s.m, s.fs.key())
-				if _, ok := results[k]; !ok {
-					results[k] = nil
-					jobs = append(jobs, job{hs[base+i], s, k})
-				}
-			}
-		}
+	type job struct {
+		h *history
+		s *snapshot
+		k string
+	}
+	recoverAll := func(jobs []job, results map[string]*recResult) {
 		var mu sync.Mutex
 		var wg sync.WaitGroup
 		ch := make(chan job)
@@ -552,6 +733,47 @@ func TestDQ(t *testing.T) {
 		}
 		close(ch)
 		wg.Wait()
+	}
+	// second generation: budget of first-generation snapshots that are used further
+	gen2Permille := hx.EnvInt("VERIF_DQ_GEN2_PERMILLE", 0)
+	rng2 := rand.New(rand.NewSource(hx.Seed()*1000003 + 17))
+	ngen2, nrec2, nuniq2, nstale2, ntried2 := 0, 0, 0, 0, 0
+	var gen2RecordTime time.Duration
+	gen2ByLabel := map[string]int{}
+	for base := 0; base < len(hs); base += chunk {
+		end := base + chunk
+		if end > len(hs) {
+			end = len(hs)
+		}
+		recs := make([]*recorder, end-base)
+		for i := base; i < end; i++ {
+			if nhung >= 5 {
+				// the queue hangs: every further history would cost its 20 s timeouts; what is
+				// recorded so far already shows it
+				recs[i-base] = &recorder{events: []map[string]interface{}{{"ev": "skipped"}}}
+				continue
+			}
+			recs[i-base] = record(hs[i], filepath.Join(work, "rec"), lvlB && !hs[i].NoLevelB)
+			for _, ev := range recs[i-base].events {
+				if ev["ev"] == "hang" {
+					nhung++
+					break
+				}
+			}
+		}
+		// recover every distinct (filesystem, marks) snapshot of the chunk in parallel
+		results := map[string]*recResult{}
+		var jobs []job
+		for i, r := range recs {
+			for _, s := range r.snaps {
+				k := fmt.Sprintf("%d/%d/%v/%s", hs[base+i].MaxBytes, hs[base+i].SyncEvery, s.m, s.fs.key())
+				if _, ok := results[k]; !ok {
+					results[k] = nil
+					jobs = append(jobs, job{hs[base+i], s, k})
+				}
+			}
+		}
+		recoverAll(jobs, results)
 		nuniq += len(jobs)
 		for i, r := range recs {
 			h := hs[base+i]
@@ -577,6 +799,165 @@ func TestDQ(t *testing.T) {
 				log.Emit(ev)
 			}
 		}
+
+		// ---- second generation: a weighted seeded sample of the chunk's distinct crash snapshots is
+		// reopened and used further (hooks recording and snapshotting again), then every distinct
+		// second-generation snapshot is recovered like the first-generation ones.
+		if gen2Permille <= 0 || nhung >= 5 || atomic.LoadInt32(&hungRecoveries) >= 8 || gen2TakeHangs >= 3 {
+			continue
+		}
+		type cand struct {
+			j   job
+			key float64
+		}
+		var cands []cand
+		for _, j := range jobs {
+			res := results[j.k]
+			if res == nil || res.Skipped || res.Hang || !res.Sentinel || res.Extra != 0 {
+				continue
+			}
+			okx := true
+			seen := map[int]bool{}
+			for _, id := range res.D {
+				if id <= 0 || seen[id] {
+					okx = false
+				}
+				seen[id] = true
+			}
+			if !okx {
+				continue
+			}
+			// crashes around the metadata temp file preferred, the more the longer the text left in it
+			// (the shortest text has 10 bytes); non-empty content preferred
+			w := 1.0
+			switch j.s.label {
+			case "m_tmp_write":
+				w = 4
+			case "m_tmp_create", "w_roll":
+				w = 2
+			}
+			if tl := tmpLen(j.s.fs); tl > 0 {
+				ex := float64(tl - 10)
+				if ex > 5 {
+					ex = 5
+				}
+				w *= 2 * (1 + ex) * (1 + ex)
+			}
+			if len(res.D) > 0 {
+				w *= 2
+			}
+			cands = append(cands, cand{j, math.Pow(rng2.Float64(), 1/w)})
+		}
+		sort.SliceStable(cands, func(a, b int) bool { return cands[a].key > cands[b].key })
+		quota := (len(jobs)*gen2Permille + 999) / 1000
+		if quota > len(cands) {
+			quota = len(cands)
+		}
+		var recs2 []*recorder
+		var hs2 []*history
+		t2 := time.Now()
+		nsearch := 0
+		for ci, c := range cands {
+			// the first `quota` candidates get a random second history; candidates that left a
+			// non-empty metadata temp file (up to 6 x quota of them) are also tried with the
+			// segment-changing templates, and such a run is kept when it reproduces the left-over
+			// temp file effect (a metadata file with a stale tail), up to `quota` of them
+			search := tmpLen(c.j.s.fs) > 0 && ci < 6*quota && nsearch < quota
+			if ci >= quota && !search {
+				if ci >= 6*quota {
+					break
+				}
+				continue
+			}
+			res := results[c.j.k]
+			x := append([]int{}, res.D...)
+			xs := 0
+			for _, id := range x {
+				if id <= c.j.s.m.WS {
+					xs++
+				}
+			}
+			for v := 0; v < 3; v++ {
+				if gen2TakeHangs >= 3 || (v == 0 && ci >= quota) || (v > 0 && !search) {
+					continue
+				}
+				ops := gen2Ops(rng2, c.j.h, v)
+				progress.Emit(map[string]interface{}{"gen2": c.j.h.H, "label": c.j.s.label, "marks": c.j.s.m, "X": x, "ops2": ops, "fs": c.j.s.fs.abstract(), "maxbytes": c.j.h.MaxBytes, "syncevery": c.j.h.SyncEvery})
+				ntried2++
+				if v > 0 {
+					// dry run first: keep the run only if it leaves a metadata file with a stale tail
+					if record2(c.j.h, filepath.Join(work, "rec2"), c.j.s, x, xs, ops, true).stale == 0 {
+						continue
+					}
+					nsearch++
+				}
+				r2 := record2(c.j.h, filepath.Join(work, "rec2"), c.j.s, x, xs, ops, false)
+				recs2 = append(recs2, r2)
+				hs2 = append(hs2, c.j.h)
+				gen2ByLabel[c.j.s.label]++
+			}
+		}
+		gen2RecordTime += time.Since(t2)
+		results2 := map[string]*recResult{}
+		var jobs2 []job
+		key2 := func(h *history, s *snapshot) string {
+			ids := make([]int, 0, len(s.lens))
+			for id := range s.lens {
+				ids = append(ids, id)
+			}
+			sort.Ints(ids)
+			var sb strings.Builder
+			for _, id := range ids {
+				fmt.Fprintf(&sb, "%d:%d,", id, s.lens[id])
+			}
+			return fmt.Sprintf("%d/%d/%s/%s", h.MaxBytes, h.SyncEvery, sb.String(), s.fs.key())
+		}
+		keys2 := map[*snapshot]string{}
+		for i, r := range recs2 {
+			for _, s := range r.snaps {
+				k := key2(hs2[i], s)
+				keys2[s] = k
+				if _, ok := results2[k]; !ok {
+					results2[k] = nil
+					jobs2 = append(jobs2, job{hs2[i], s, k})
+				}
+			}
+		}
+		recoverAll(jobs2, results2)
+		nuniq2 += len(jobs2)
+		for i, r := range recs2 {
+			h := hs2[i]
+			for _, s := range r.snaps {
+				res := results2[keys2[s]]
+				ev := r.events[s.evIdx]
+				d := []int{}
+				dabs := []int{}
+				for _, id := range res.D {
+					d = append(d, r.pos[id]) // position in L; 0 = not part of this incarnation's content
+					dabs = append(dabs, id)
+				}
+				ev["D"] = d
+				ev["Dabs"] = dabs
+				ev["sentinel"] = res.Sentinel
+				ev["hang"] = res.Hang
+				ev["extra"] = res.Extra
+				ev["err"] = res.CloseErr
+				ev["skipped"] = res.Skipped
+				ev["m"] = []int{s.m.N, s.m.C, s.m.WS, s.m.CS}
+				ev["tail"] = staleTail(s.fs)
+				nrec2++
+			}
+			nstale2 += r.stale
+			ngen2++
+			p := r.parent
+			log.Emit(map[string]interface{}{"ev": "gen2", "h": h.H, "g": ngen2, "label": p.label, "x": len(r.x), "xs": r.xs, "X": r.x,
+				"m1": []int{p.m.N, p.m.C, p.m.WS, p.m.CS}, "ops2": r.ops2, "maxbytes": h.MaxBytes, "syncevery": h.SyncEvery, "ops": h.Ops})
+			for _, ev := range r.events {
+				log.Emit(ev)
+			}
+		}
 	}
-	log.Emit(map[string]interface{}{"ev": "end", "histories": len(hs), "recoveries": nrec, "distinct_recoveries": nuniq})
+	log.Emit(map[string]interface{}{"ev": "end", "histories": len(hs), "recoveries": nrec, "distinct_recoveries": nuniq,
+		"gen2_runs": ngen2, "gen2_recoveries": nrec2, "gen2_distinct_recoveries": nuniq2, "gen2_stale_tail_snapshots": nstale2,
+		"gen2_parents_by_label": gen2ByLabel, "gen2_runs_tried": ntried2, "gen2_record_ms": gen2RecordTime.Milliseconds()})
 }
